@@ -1,4 +1,5 @@
 import gfapy
+import re
 from functools import total_ordering
 
 @total_ordering
@@ -99,14 +100,14 @@ class LastPos:
 
   @classmethod
   def _from_string(cls, string, valid=False):
-    if string[-1] == "$":
-      return cls(int(string[:-1]), valid=valid)
+    match = re.fullmatch(r"(-?[0-9]+)(\$?)", string)
+    if match is None:
+      raise gfapy.FormatError(
+          "LastPos value has a wrong format: {}".format(string))
+    v = int(match.group(1))
+    if match.group(2):
+      return cls(v, valid=valid)
     else:
-      try:
-        v = int(string)
-      except:
-        raise gfapy.FormatError(
-            "LastPos value has a wrong format: {}".format(string))
       if not valid:
         if v < 0:
           raise gfapy.ValueError("LastPos value shall be >= 0,"+
